@@ -80,7 +80,7 @@ class IncrementalSage(BaseIncrementalFeatureImportance):
             storage=storage,
             imputer=imputer
         )
-        self._loss_direction = 1. if loss_bigger_is_better else 0.
+        self._loss_direction = 1 if loss_bigger_is_better else 0  # an int offset keeps exact (e.g. Fraction) losses exact
         self.n_inner_samples = n_inner_samples
         self.marginal_prediction: dict = {}
 
